@@ -67,6 +67,8 @@ func (m mapImporter) Import(path string) (*types.Package, error) {
 
 const ghostPrelude = `
 func old[T any](x T) T { return x }
+func acq[T any](x T) T { return x }
+func sumInts(s []int) int { return 0 }
 func implies(a, b bool) bool { return !a || b }
 func iff(a, b bool) bool { return a == b }
 func forall(f any) bool { return true }
@@ -77,6 +79,7 @@ func held(m any) bool { return true }
 func holdsNone() bool { return true }
 func heldx(m any) bool { return true }
 func locksBelow(m any) bool { return true }
+func holdsOnly(m any) bool { return true }
 func inpos(c any) int { return 0 }
 func inbyte(c any, i int) byte { return 0 }
 func outlen(c any) int { return 0 }
